@@ -18,9 +18,10 @@ GROUPS = (0x0101, 0x0202, 0x0303)
 class Ncp:
     """Command-level NCP: configuration value + multicast table."""
 
-    def __init__(self, t, table):
+    def __init__(self, t, table, eps=None):
         self.t = t
         self.table = list(table)  # per index: group id or None (endpoint 0)
+        self.eps = list(eps) if eps is not None else [1] * len(self.table)  # endpoint of each programmed entry (any non-zero value)
         self.writes = []
         self.answers = []  # scripted answers for the next writes
         self.reject_status = t.EmberStatus.INDEX_OUT_OF_RANGE
@@ -34,7 +35,7 @@ class Ncp:
         e = t.EmberMulticastTableEntry()
         g = self.table[i]
         e.multicastId = t.EmberMulticastId(g if g is not None else 0)
-        e.endpoint = t.uint8_t(1 if g is not None else 0)
+        e.endpoint = t.uint8_t(self.eps[i] if g is not None else 0)
         e.networkIndex = t.uint8_t(0)
         return t.EmberStatus.SUCCESS, e
 
@@ -44,6 +45,7 @@ class Ncp:
         self.writes.append((idx, int(entry.multicastId), int(entry.endpoint), ans))
         if ans in ("ok", "timeout-applied") and 0 <= idx < len(self.table):
             self.table[idx] = int(entry.multicastId) if int(entry.endpoint) != 0 else None
+            self.eps[idx] = int(entry.endpoint) or 1
         if ans.startswith("timeout"):
             raise asyncio.TimeoutError()
         if ans == "reject":
@@ -64,13 +66,20 @@ class Coord:
         self.endpoints = {0: Ep({}), 1: Ep({g: None for g in groups})}
 
 
-def initial_tables(ctx, size, ngroups):
+ENDPOINTS = (1, 2, 0xF2, 0xFF)  # "programmed" = any non-zero endpoint
+
+
+def initial_tables(ctx, size, ngroups, eps=None):
     tab, used = [], set()
     for i in range(size):
         opts = [None] + [g for g in GROUPS[:ngroups] if g not in used]
         g = opts[ctx.choice("init%d" % i, len(opts))]
         if g is not None:
             used.add(g)
+            if eps is not None:
+                eps.append(ENDPOINTS[ctx.choice("ep%d" % i, len(ENDPOINTS))] if i == 0 else 1)
+        elif eps is not None:
+            eps.append(1)
         tab.append(g)
     return tab
 
@@ -86,11 +95,12 @@ class Seq(Harness):
         from bellows.multicast import Multicast
 
         size = ctx.choice("size", max_size + 1)
-        table = initial_tables(ctx, size, ngroups)
+        eps = []
+        table = initial_tables(ctx, size, ngroups, eps)
         ok_status = t.sl_Status.OK
 
         async def main(loop):
-            ncp = Ncp(t, table)
+            ncp = Ncp(t, table, eps)
             m = Multicast(ncp)
             await m.startup(Coord(()))
             tainted = False  # an applied-but-timed-out write makes the mirror relation unknowable for the host
@@ -210,7 +220,7 @@ def main(tier):
         "NCP modelled at command level: getConfigurationValue / getMulticastTableEntry / setMulticastTableEntry over a table with the stated answers",
         "a rejected write and a timed-out (request lost) write do not change the NCP table; in the 'timeout-applied' variant the write is applied and the "
         "mirror relation is not demanded afterwards (only slot accounting), because the host cannot know",
-        "group universe of 2-3 ids; initial tables contain each group at most once",
+        "group universe of 2-3 ids; initial tables contain each group at most once; the first initial entry carries endpoint 1, 2, 0xF2 or 0xFF (programmed = non-zero endpoint), the others endpoint 1",
         "host view read from the anchored state Multicast._multicast/_available, plus a closing probe through subscribe() only",
     ]
     if tier == "quick":
